@@ -25,11 +25,22 @@ func (m Message) TagType() byte {
 }
 
 func (m Message) MarshalNBT(w io.Writer) error {
+	// The tag type has been written by the caller. Only the payload goes here,
+	// so encode in network format (no tag name) and drop the leading tag type.
+	var buf bytes.Buffer
+	enc := nbt.NewEncoder(&buf)
+	enc.NetworkFormat(true)
+	var err error
 	if m.Translate != "" {
-		return nbt.NewEncoder(w).Encode(translateMsg(m), "")
+		err = enc.Encode(translateMsg(m), "")
 	} else {
-		return nbt.NewEncoder(w).Encode(rawMsgStruct(m), "")
+		err = enc.Encode(rawMsgStruct(m), "")
 	}
+	if err != nil {
+		return err
+	}
+	_, err = w.Write(buf.Bytes()[1:])
+	return err
 }
 
 func (m *Message) UnmarshalNBT(tagType byte, r nbt.DecoderReader) error {
